@@ -4,6 +4,10 @@ package rules
 // blind against the round3-baseline checker first).
 
 import (
+	"go/token"
+	"go/types"
+	"regexp"
+	"strconv"
 	"strings"
 
 	"cvcheck/internal/core"
@@ -230,4 +234,682 @@ func (c *Ctx) matcherDelegationRule(rule string) {
 			})), "Match can answer true without component "+ff+" having matched; true-condition: "+tr.Describe(c.O))
 		}
 	}
+}
+
+// indexAccessor describes a method that indexes a slice field of its receiver with one of its parameters and nothing
+// else (m.paths[at]): the bound obligation moves to its call sites.
+type indexAccessor struct {
+	fn    *ssa.Function
+	param int    // index of the index parameter in fn.Params
+	field string // the receiver field indexed
+}
+
+// varIndexRule: s[i] with a variable index is dominated by i < len(s) on the same slice.
+func (c *Ctx) varIndexRule(rule string) {
+	r := c.R
+	r.Rule(rule, "variable index s[i] into a slice (also through int(i) conversions): dominated by i < len(s) of that very slice (loop bound or explicit test, also via a tested equality len(t) == len(s)); s[len(s)-k] by len(s) ≥ k; an index into make([]T, len(x)) by the bound on x; an accessor that indexes a receiver field with its parameter (IdentMatcher.ExprAt/NameAt/ForGetter) hands the obligation to every call site (index < PathLen(), or index 0 of a field only ever assigned strings.Split results); the per-argument variables of the assignment builder are made with the length of the argument list given to build")
+	n := 0
+	strip := func(t *core.Term) *core.Term {
+		for t.Kind == "convert" && len(t.Args) == 1 {
+			t = t.Args[0]
+		}
+		return t
+	}
+	// below(idx, isLen) matches literals that establish idx < L for a term L accepted by isLen
+	below := func(idxS string, isLen func(*core.Term) bool) core.LitMatcher {
+		return func(l core.Lit) bool {
+			t, pos := c.Canon(l)
+			if t.Kind != "binop" || len(t.Args) != 2 {
+				return false
+			}
+			a, bb := t.Args[0], t.Args[1]
+			switch t.Name {
+			case "<":
+				return pos && strip(a).String() == idxS && isLen(strip(bb))
+			case "<=":
+				return !pos && isLen(strip(a)) && strip(bb).String() == idxS
+			case ">":
+				return pos && isLen(strip(a)) && strip(bb).String() == idxS
+			case ">=":
+				return !pos && strip(a).String() == idxS && isLen(strip(bb))
+			}
+			return false
+		}
+	}
+	var accessors []indexAccessor
+	for _, fn := range c.P.Funcs() {
+		perFn := 0
+		for _, b := range fn.Blocks {
+			for _, in := range b.Instrs {
+				ia, ok := in.(*ssa.IndexAddr)
+				if !ok {
+					continue
+				}
+				if _, isSlice := ia.X.Type().Underlying().(*types.Slice); !isSlice {
+					continue
+				}
+				it := c.O.Of(ia.Index)
+				if _, isK := constInt(it); isK {
+					continue
+				}
+				n++
+				perFn++
+				base := c.O.Of(ia.X)
+				idx := strip(it)
+				idxS := idx.String()
+				isLenOfBase := func(t *core.Term) bool {
+					return t.IsCallTo("builtin:len") && (t.Args[0].V == ia.X || t.Args[0].String() == base.String())
+				}
+				d := c.ReachOf(ia)
+				okB := d.Implies(below(idxS, isLenOfBase))
+				why := ""
+				if !okB {
+					// i < len(t) ∧ len(t) == len(s), per conjunct
+					okB = len(d) > 0
+					for _, cj := range d {
+						good := false
+						for _, l1 := range cj {
+							if below(idxS, isLenOfBase)(l1) {
+								good = true
+								break
+							}
+							var other *core.Term
+							if below(idxS, func(t *core.Term) bool {
+								if t.IsCallTo("builtin:len") {
+									other = t
+									return true
+								}
+								return false
+							})(l1) && other != nil {
+								for _, l2 := range cj {
+									t2, pos2 := c.Canon(l2)
+									if pos2 && t2.Kind == "binop" && t2.Name == "==" && len(t2.Args) == 2 {
+										x, y := strip(t2.Args[0]), strip(t2.Args[1])
+										if (x.String() == other.String() && isLenOfBase(y)) || (y.String() == other.String() && isLenOfBase(x)) {
+											good = true
+										}
+									}
+								}
+							}
+							if good {
+								break
+							}
+						}
+						if !good {
+							okB = false
+							break
+						}
+					}
+				}
+				if !okB && idx.Kind == "binop" && idx.Name == "-" && len(idx.Args) == 2 && isLenOfBase(strip(idx.Args[0])) {
+					// s[len(s)-k]: needs len(s) ≥ k
+					if k, isK := constInt(idx.Args[1]); isK && k >= 1 {
+						okB = d.Implies(c.atLeast(isLenOfBase, k))
+					}
+				}
+				if !okB && base.Kind == "make" && len(base.Args) >= 1 {
+					// s := make([]T, len(x)) … for i := range x { s[i] = … }
+					ln := strip(base.Args[0]).String()
+					okB = d.Implies(below(idxS, func(t *core.Term) bool { return t.String() == ln }))
+				}
+				if !okB && idx.Kind == "param" && base.Kind == "field" && len(base.Args) == 1 && base.Args[0].Kind == "param" && len(fn.Blocks) == 1 {
+					// accessor: the obligation is checked at the call sites below
+					for pi, p := range fn.Params {
+						if "param:"+p.Name() == idxS {
+							accessors = append(accessors, indexAccessor{fn: fn, param: pi, field: base.Name})
+							okB = true
+							why = "accessor"
+						}
+					}
+				}
+				if !okB && base.IsField("builder.assignmentBuilder.additionalArgVars") {
+					okB = c.argVarsInvariant(fn, idxS, below)
+				}
+				_ = why
+				if okB && !c.nonNegative(idx, d) {
+					r.Check(rule, sprintf("%s:index%d:non-negative", FnKey(fn), perFn), c.InstrPos(ia), false,
+						"s[i] with variable index "+it.String()+" is not known to be ≥ 0 (no loop counter, no dominating i < 0 test); reach: "+d.Describe(c.O))
+				}
+				r.Check(rule, sprintf("%s:index%d", FnKey(fn), perFn), c.InstrPos(ia), okB,
+					"s[i] with variable index "+it.String()+" is not dominated by i < len(s) on "+base.String()+" (an out-of-range value panics); reach: "+d.Describe(c.O))
+			}
+		}
+	}
+	r.Floor(rule, "variable slice indexes", n, 5)
+	// call sites of index accessors
+	na := 0
+	for _, acc := range accessors {
+		// the length method of the same receiver type: returns len(field)
+		lenMethods := map[string]bool{}
+		for _, fn := range c.P.Funcs() {
+			if fn.Signature.Recv() == nil || acc.fn.Signature.Recv() == nil || !types.Identical(fn.Signature.Recv().Type(), acc.fn.Signature.Recv().Type()) {
+				continue
+			}
+			rets := core.Returns(fn)
+			if len(rets) == 1 && len(rets[0].Results) == 1 {
+				if t := c.O.Of(rets[0].Results[0]); t.IsCallTo("builtin:len") && t.Args[0].IsField(acc.field) {
+					lenMethods[fn.String()] = true
+				}
+			}
+		}
+		sites, _ := c.callersOf(acc.fn)
+		perFn := map[*ssa.Function]int{}
+		for _, s := range sites {
+			na++
+			perFn[s.Fn]++
+			args := s.Instr.Common().Args
+			recv := c.O.Of(args[0]).String()
+			it := strip(c.O.Of(args[acc.param]))
+			isLen := func(t *core.Term) bool {
+				if t.Kind == "call" && lenMethods[t.Name] && len(t.Args) == 1 && t.Args[0].String() == recv {
+					return true
+				}
+				return t.IsCallTo("builtin:len") && t.Args[0].IsField(acc.field) && t.Args[0].Args[0].String() == recv
+			}
+			d := c.ReachOf(s.Instr)
+			okB := false
+			if k, isK := constInt(it); isK {
+				okB = (k == 0 && c.fieldOnlySplit(acc.field)) || d.Implies(c.atLeast(isLen, k+1))
+			} else {
+				okB = d.Implies(below(it.String(), isLen))
+			}
+			if !okB && s.Fn.Signature.Recv() != nil && it.Kind == "param" && types.Identical(s.Fn.Signature.Recv().Type(), acc.fn.Signature.Recv().Type()) && len(s.Fn.Blocks) == 1 {
+				okB = false // an accessor built on an accessor is not followed further
+			}
+			r.Check(rule, sprintf("%s:call%d:%s", FnKey(s.Fn), perFn[s.Fn], acc.fn.Name()), c.Pos(s.Pos()), okB,
+				acc.fn.Name()+"("+it.String()+") indexes "+acc.field+" without a dominating bound on the path length (index < PathLen()); reach: "+d.Describe(c.O))
+		}
+	}
+	if len(accessors) > 0 {
+		r.Floor(rule, "call sites of index accessors", na, 1)
+	}
+}
+
+// nonNegative: the index term cannot be negative – a loop counter that starts at a constant ≥ 0 and only grows, a
+// length, a parameter (checked at the callers of accessors), len(s)-k under len(s) ≥ k (checked by the caller of this
+// function) – or the reaching condition excludes idx < 0.
+func (c *Ctx) nonNegative(idx *core.Term, d core.DNF) bool {
+	var structural func(t *core.Term, depth int) bool
+	structural = func(t *core.Term, depth int) bool {
+		if t == nil || depth > 6 {
+			return false
+		}
+		switch t.Kind {
+		case "const":
+			k, isK := constInt(t)
+			return isK && k >= 0
+		case "param":
+			return true
+		case "opaque":
+			return strings.HasPrefix(t.Name, "cycle:")
+		case "convert":
+			return len(t.Args) == 1 && structural(t.Args[0], depth+1)
+		case "call":
+			return t.IsCallTo("builtin:len") || t.IsCallTo("builtin:cap")
+		case "phi":
+			if strings.HasPrefix(t.Name, "rangeindex") {
+				return true // -1 then +1 per iteration; used only as rangeindex+1
+			}
+			for _, a := range t.Args {
+				if !structural(a, depth+1) {
+					return false
+				}
+			}
+			return len(t.Args) > 0
+		case "binop":
+			if len(t.Args) != 2 {
+				return false
+			}
+			switch t.Name {
+			case "+":
+				if t.Args[0].Kind == "phi" && strings.HasPrefix(t.Args[0].Name, "rangeindex") && t.Args[1].Is("const", "1") {
+					return true
+				}
+				return structural(t.Args[0], depth+1) && structural(t.Args[1], depth+1)
+			case "-":
+				return t.Args[0].IsCallTo("builtin:len") // len(s)-k: the bound len(s) ≥ k is required by the index rule itself
+			case "*", "/", "%":
+				return structural(t.Args[0], depth+1) && structural(t.Args[1], depth+1)
+			}
+		}
+		return false
+	}
+	if structural(idx, 0) {
+		return true
+	}
+	s := idx.String()
+	strip := func(t *core.Term) *core.Term {
+		for t.Kind == "convert" && len(t.Args) == 1 {
+			t = t.Args[0]
+		}
+		return t
+	}
+	return d.Implies(func(l core.Lit) bool {
+		t, pos := c.Canon(l)
+		if t.Kind != "binop" || len(t.Args) != 2 {
+			return false
+		}
+		a, b := strip(t.Args[0]), strip(t.Args[1])
+		switch t.Name {
+		case "<": // i < 0 false | -1 < i true
+			return (!pos && a.String() == s && b.Is("const", "0")) || (pos && a.Is("const", "-1") && b.String() == s)
+		case "<=": // 0 <= i true
+			return pos && a.Is("const", "0") && b.String() == s
+		case ">=": // i >= 0 true
+			return pos && a.String() == s && b.Is("const", "0")
+		case ">": // 0 > i false
+			return !pos && a.Is("const", "0") && b.String() == s
+		}
+		return false
+	})
+}
+
+// callersOf lists the static call sites of fn in module code.
+func (c *Ctx) callersOf(fn *ssa.Function) ([]Site, bool) {
+	c.UniqueCaller(fn) // builds the index
+	return c.callers[fn], !c.valueUse[fn]
+}
+
+// argVarsInvariant: assignmentBuilder.additionalArgVars has one entry per additional argument. Checked where it is
+// established: the field is written only by the constructor from its parameter, and every build call on a builder gets,
+// as argument list, the slice whose length the constructor's variable slice was made with.
+func (c *Ctx) argVarsInvariant(fn *ssa.Function, idxS string, below func(string, func(*core.Term) bool) core.LitMatcher) bool {
+	nab := pBld + "newAssignmentBuilder"
+	build := "(*" + pBld + "assignmentBuilder).build"
+	if fn.String() != build {
+		return false
+	}
+	// index bound in build: i < len(<the argument-list parameter>)
+	var listParam string
+	for _, p := range fn.Params {
+		if sl, ok := p.Type().Underlying().(*types.Slice); ok && strings.HasSuffix(sl.Elem().String(), "types.Var") {
+			listParam = "param:" + p.Name()
+		}
+	}
+	if listParam == "" {
+		return false
+	}
+	for _, b := range fn.Blocks {
+		for _, in := range b.Instrs {
+			ia, ok := in.(*ssa.IndexAddr)
+			if !ok || !c.O.Of(ia.X).IsField("builder.assignmentBuilder.additionalArgVars") {
+				continue
+			}
+			if !c.ReachOf(ia).Implies(below(idxS, func(t *core.Term) bool { return t.IsCallTo("builtin:len") && t.Args[0].String() == listParam })) {
+				return false
+			}
+		}
+	}
+	// the field is stored only in the constructor, from a parameter
+	var ctorParam int = -1
+	for _, f := range c.P.Funcs() {
+		for _, b := range f.Blocks {
+			for _, in := range b.Instrs {
+				st, ok := in.(*ssa.Store)
+				if !ok {
+					continue
+				}
+				fa, ok := st.Addr.(*ssa.FieldAddr)
+				if !ok || core.FieldName(fa.X.Type(), fa.Field) != "builder.assignmentBuilder.additionalArgVars" {
+					continue
+				}
+				if f.String() != nab {
+					return false
+				}
+				p, isP := st.Val.(*ssa.Parameter)
+				if !isP {
+					return false
+				}
+				for i, q := range f.Params {
+					if q == p {
+						ctorParam = i
+					}
+				}
+			}
+		}
+	}
+	if ctorParam < 0 {
+		return false
+	}
+	sites := c.CallsTo(build)
+	if len(sites) == 0 {
+		return false
+	}
+	for _, s := range sites {
+		args := s.Instr.Common().Args
+		recv := c.O.Of(args[0])
+		if !recv.IsCallTo(nab) || ctorParam >= len(recv.Args) {
+			return false
+		}
+		vars := recv.Args[ctorParam]
+		var list *core.Term
+		for i, p := range fn.Params {
+			if "param:"+p.Name() == listParam {
+				list = c.O.Of(args[i])
+			}
+		}
+		if list == nil || vars.Kind != "make" || len(vars.Args) < 1 || !vars.Args[0].IsCallTo("builtin:len") || vars.Args[0].Args[0].String() != list.String() {
+			return false
+		}
+	}
+	return true
+}
+
+// typePredicateRule: the go/types classifiers everything else is phrased in judge what their names say.
+func (c *Ctx) typePredicateRule(rule string) {
+	r := c.R
+	r.Rule(rule, "type classifiers of pkg/util: IsStructType/IsSliceType ⇔ comma-ok assertion of t.Underlying() (the parameter's own underlying type: no pointer dereference) to *types.Struct / *types.Slice; IsPtr/IsNamedType/IsBasicType ⇔ comma-ok assertion of t itself to *types.Pointer / *types.Named / *types.Basic; DerefPtr(t) = Elem() of that pointer when t is a pointer, else t; IsErrorType(t) ⇔ t.String() == \"error\"")
+	type spec struct {
+		name, asserted string
+		underlying     bool
+	}
+	for _, sp := range []spec{
+		{"IsStructType", "*types.Struct", true}, {"IsSliceType", "*types.Slice", true},
+		{"IsPtr", "*types.Pointer", false}, {"IsNamedType", "*types.Named", false}, {"IsBasicType", "*types.Basic", false},
+	} {
+		fn := c.MustFunc(rule, "/pkg/util", sp.name)
+		if fn == nil {
+			continue
+		}
+		p0 := "param:" + fn.Params[0].Name()
+		verdict := func(t *core.Term) bool {
+			if t.Kind != "extract" || t.Name != "1" || t.Args[0].Kind != "typeassert,ok" || t.Args[0].Name != sp.asserted {
+				return false
+			}
+			x := t.Args[0].Args[0]
+			if sp.underlying {
+				return x.Kind == "invoke" && x.Name == "(types.Type).Underlying" && x.Args[0].String() == p0
+			}
+			return x.String() == p0
+		}
+		rc := c.Reach(fn)
+		tr, fl := rc.RetCond(0, true), rc.RetCond(0, false)
+		what := "t"
+		if sp.underlying {
+			what = "t.Underlying()"
+		}
+		r.Check(rule, FnKey(fn)+":true", c.Pos(fn.Pos()), len(tr) > 0 && tr.Implies(c.M(true, verdict)), sp.name+" answers true without "+what+".("+sp.asserted+") succeeding on its own parameter; true-condition: "+tr.Describe(c.O))
+		r.Check(rule, FnKey(fn)+":false", c.Pos(fn.Pos()), len(fl) > 0 && fl.Implies(c.M(false, verdict)), sp.name+" answers false although "+what+".("+sp.asserted+") succeeds; false-condition: "+fl.Describe(c.O))
+	}
+	if fn := c.MustFunc(rule, "/pkg/util", "DerefPtr"); fn != nil {
+		p0 := "param:" + fn.Params[0].Name()
+		isPtr := func(t *core.Term) bool {
+			return t.Kind == "extract" && t.Name == "1" && t.Args[0].Kind == "typeassert,ok" && t.Args[0].Name == "*types.Pointer" && t.Args[0].Args[0].String() == p0
+		}
+		okAll := true
+		n := 0
+		for _, ret := range core.Returns(fn) {
+			n++
+			t := c.O.Of(ret.Results[0])
+			d := c.ReachOf(ret)
+			switch {
+			case t.String() == p0:
+				okAll = okAll && d.Implies(c.M(false, isPtr))
+			case t.IsCallTo("(*go/types.Pointer).Elem") && t.Args[0].Kind == "extract" && t.Args[0].Name == "0" && t.Args[0].Args[0].Kind == "typeassert,ok" && t.Args[0].Args[0].Args[0].String() == p0:
+				okAll = okAll && d.Implies(c.M(true, isPtr))
+			default:
+				okAll = false
+			}
+		}
+		r.Check(rule, FnKey(fn)+":one-level", c.Pos(fn.Pos()), okAll && n >= 2, "DerefPtr must return the pointer's element type for a pointer and the type itself otherwise (exactly one level)")
+	}
+	if fn := c.MustFunc(rule, "/pkg/util", "IsErrorType"); fn != nil {
+		p0 := "param:" + fn.Params[0].Name()
+		okE := false
+		for _, ret := range core.Returns(fn) {
+			t := c.O.Of(ret.Results[0])
+			if eqConst(func(x *core.Term) bool {
+				return x.Kind == "invoke" && x.Name == "(types.Type).String" && x.Args[0].String() == p0
+			}, `"error"`)(t) {
+				okE = true
+			}
+			if t.IsCallTo("go/types.Identical") {
+				okE = true
+			}
+		}
+		r.Check(rule, FnKey(fn)+":error", c.Pos(fn.Pos()), okE, "IsErrorType must compare the type with the predeclared error type")
+	}
+}
+
+// getterShapeRule: ParseGetterReturnTypes accepts (T) and (T, error) only.
+func (c *Ctx) getterShapeRule(rule string) {
+	r := c.R
+	r.Rule(rule, "getter return shape: util.ParseGetterReturnTypes answers ok only for 1 or 2 results, with 2 results only when IsErrorType(Results().At(1).Type()), and answers retError only for 2 results (StructMethodNode.ReturnsError equates two results with an error result)")
+	fn := c.MustFunc(rule, "/pkg/util", "ParseGetterReturnTypes")
+	if fn == nil {
+		return
+	}
+	if fn.Signature.Results().Len() != 3 {
+		r.Undecided(rule, FnKey(fn), "expected results (ret, retError, ok)")
+		return
+	}
+	rc := c.Reach(fn)
+	numRes := func(t *core.Term) bool {
+		return t.IsCallTo("(*go/types.Tuple).Len") && t.Args[0].IsCallTo("(*go/types.Signature).Results")
+	}
+	isErr1 := func(t *core.Term) bool {
+		if !t.IsCallTo(fnIsErrorType) {
+			return false
+		}
+		a := t.Args[0]
+		return a.Kind == "call" && strings.HasSuffix(a.Name, ").Type") && a.Contains(func(s *core.Term) bool {
+			return s.IsCallTo("(*go/types.Tuple).At") && s.Args[1].Is("const", "1") && s.Args[0].IsCallTo("(*go/types.Signature).Results")
+		})
+	}
+	okC := rc.RetCond(2, true)
+	pos := c.Pos(fn.Pos())
+	key := FnKey(fn)
+	r.Check(rule, key+":ok⇒1..2", pos, len(okC) > 0 && okC.Implies(c.atLeast(numRes, 1)) && okC.Implies(c.atMost(numRes, 2)), "ok is answered for a method with no or more than two results; ok-condition: "+okC.Describe(c.O))
+	r.Check(rule, key+":ok∧2⇒error", pos, okC.Implies(c.notExactly(numRes, 2), c.atMost(numRes, 1), c.M(true, isErr1)), "ok is answered for a two-result method whose second result is not error (v, ok := x.Get() would be rendered as `dst, err = x.Get()`); ok-condition: "+okC.Describe(c.O))
+	// retError ⇒ two results; ok ∧ ¬retError ⇒ not two results
+	reC := rc.RetCond(1, true)
+	r.Check(rule, key+":retError⇒2", pos, reC.Implies(c.exactly(numRes, 2)), "retError is answered for a method that does not have exactly two results; condition: "+reC.Describe(c.O))
+	okConv := true
+	var bad core.DNF
+	for _, ret := range core.Returns(fn) {
+		joint := core.And(rc.RetCondAt(ret, 2, true), rc.RetCondAt(ret, 1, false))
+		if !joint.Implies(c.notExactly(numRes, 2), c.atMost(numRes, 1)) {
+			okConv = false
+			bad = joint
+		}
+	}
+	r.Check(rule, key+":ok∧¬retError⇒¬2", pos, okConv, "a two-result getter is accepted without retError (its call would be rendered in a single-value context); condition: "+bad.Describe(c.O))
+}
+
+// methodIterationRule: the getter pass offers every getter of the source type, in declaration order.
+func (c *Ctx) methodIterationRule(rule string) {
+	r := c.R
+	r.Rule(rule, "getter iteration: util.IterateMethods hands Method(i), i = 0..NumMethods()-1, to its callback and stops early only when the callback says so; bmodel.IterateStructMethods calls cb(NewStructMethodNode(structNode, m)) exactly for the methods with CompliesGetter(m), skips the others without stopping (returns false), and stops only when cb returned true")
+	c.iteratorRule(rule, "IterateMethods", "(*go/types.Named).Method", "(*go/types.Named).NumMethods")
+	f2 := c.MustFunc(rule, "/pkg/builder/model", "IterateStructMethods")
+	if f2 == nil {
+		return
+	}
+	k2 := FnKey(f2)
+	found := false
+	for _, a := range f2.AnonFuncs {
+		if len(a.Params) != 1 {
+			continue
+		}
+		p0 := "param:" + a.Params[0].Name()
+		var cbCall ssa.CallInstruction
+		for _, b := range a.Blocks {
+			for _, in := range b.Instrs {
+				if ci, ok := in.(ssa.CallInstruction); ok && c.O.Of(ci.Common().Value).Kind == "fv" && ci.Common().StaticCallee() == nil {
+					cbCall = ci
+				}
+			}
+		}
+		if cbCall == nil {
+			continue
+		}
+		found = true
+		complies := func(t *core.Term) bool { return t.IsCallTo(pUtil+"CompliesGetter") && t.Args[0].String() == p0 }
+		arg := c.O.Of(cbCall.Common().Args[0])
+		okArg := arg.IsCallTo(fnNewMethodNode) && arg.Args[0].Kind == "fv" && arg.Args[1].String() == p0
+		r.Check(rule, k2+":node", c.Pos(cbCall.Pos()), okArg, "the callback must receive NewStructMethodNode(structNode, <the visited method>), got "+arg.String())
+		d := c.ReachOf(cbCall)
+		r.Check(rule, k2+":only-getters", c.Pos(cbCall.Pos()), d.Implies(c.M(true, complies)), "a method that does not comply with the getter shape is offered as a getter; reach: "+d.Describe(c.O))
+		// no other filter
+		extra := ""
+		for _, cj := range d {
+			for _, l := range cj {
+				if t, _ := c.Canon(l); !complies(t) {
+					extra = t.String()
+				}
+			}
+		}
+		r.Check(rule, k2+":no-other-filter", c.Pos(cbCall.Pos()), extra == "", "a further condition decides whether a getter is offered: "+extra)
+		rc := c.Reach(a)
+		stop := rc.RetCond(0, true)
+		cbTrue := c.M(true, func(t *core.Term) bool { return t.V == cbCall.(ssa.Value) })
+		r.Check(rule, k2+":stops-only-on-callback", c.Pos(a.Pos()), stop.Implies(cbTrue), "the getter pass can stop although the callback did not ask for it (later getters are never offered); stop-condition: "+stop.Describe(c.O))
+		// every way of not calling cb is ¬CompliesGetter
+		av := c.ReachAvoid(a, map[*ssa.BasicBlock]bool{cbCall.Block(): true})
+		for i, ret := range core.Returns(a) {
+			if ret.Block() == cbCall.Block() {
+				continue
+			}
+			dd := av.At(ret.Block())
+			if dd == nil {
+				continue
+			}
+			r.Check(rule, sprintf("%s:return%d:skips-only-non-getters", k2, i+1), c.InstrPos(ret), dd.Implies(c.M(false, complies)), "a getter can be passed over without being offered; reach avoiding the callback: "+dd.Describe(c.O))
+		}
+	}
+	r.Check(rule, k2+":callback-found", c.Pos(f2.Pos()), found, "no closure of IterateStructMethods calls the captured callback")
+}
+
+// docDetachRule: a comment-group link is set to nil only when that very group has no lines left.
+func (c *Ctx) docDetachRule(rule string) {
+	r := c.R
+	r.Rule(rule, "detaching a doc comment: every store of nil into a *ast.CommentGroup location (n.Doc = nil, *doc = nil) is reached only under len(<the group at that same location>.List) == 0 (an emptied group left attached makes the printer/position lookup fail; a non-empty group detached loses its text)")
+	n := 0
+	for _, fn := range c.P.Funcs() {
+		perFn := 0
+		for _, b := range fn.Blocks {
+			for _, in := range b.Instrs {
+				st, ok := in.(*ssa.Store)
+				if !ok {
+					continue
+				}
+				k, isK := st.Val.(*ssa.Const)
+				if !isK || !k.IsNil() {
+					continue
+				}
+				pt, isPtr := st.Addr.Type().Underlying().(*types.Pointer)
+				if !isPtr || pt.Elem().String() != "*go/ast.CommentGroup" {
+					continue
+				}
+				if _, isAlloc := st.Addr.(*ssa.Alloc); isAlloc {
+					continue // a local variable, not a link of the tree
+				}
+				n++
+				perFn++
+				// the term of "the group at that location": a load of the same address expression
+				want := ""
+				switch a := st.Addr.(type) {
+				case *ssa.FieldAddr:
+					want = (&core.Term{Kind: "field", Name: core.FieldName(a.X.Type(), a.Field), Args: []*core.Term{c.O.Of(a.X)}}).String()
+					// loads through the same base give field:…(base) with the base described by baseOf; find one to be exact
+					for _, bb := range fn.Blocks {
+						for _, i2 := range bb.Instrs {
+							if u, isU := i2.(*ssa.UnOp); isU {
+								if fa, isFA := u.X.(*ssa.FieldAddr); isFA && fa.Field == a.Field && c.O.Of(fa.X).String() == c.O.Of(a.X).String() {
+									want = c.O.Of(u).String()
+								}
+							}
+						}
+					}
+				default:
+					for _, bb := range fn.Blocks {
+						for _, i2 := range bb.Instrs {
+							if u, isU := i2.(*ssa.UnOp); isU && u.Op == token.MUL && (u.X == st.Addr || c.O.Of(u.X).String() == c.O.Of(st.Addr).String()) {
+								if pt2, isP := u.X.Type().Underlying().(*types.Pointer); isP && pt2.Elem().String() == "*go/ast.CommentGroup" {
+									want = c.O.Of(u).String()
+								}
+							}
+						}
+					}
+				}
+				d := c.ReachOf(st)
+				empty := c.M(true, eqConst(func(t *core.Term) bool {
+					return t.IsCallTo("builtin:len") && t.Args[0].IsField("ast.CommentGroup.List") && t.Args[0].Args[0].String() == want
+				}, "0"))
+				r.Check(rule, sprintf("%s:detach%d", FnKey(fn), perFn), c.InstrPos(st), want != "" && d.Implies(empty),
+					"a doc link is set to nil without testing that this very group ("+want+") is empty; reach: "+d.Describe(c.O))
+			}
+		}
+	}
+	r.Floor(rule, "stores of nil into comment-group links", n, 1)
+}
+
+// patternWitnessRule: the constant line patterns accept / reject the documented witness lines. The pattern is a constant
+// of the source, interpreted here in its own language (RE2) – no repository code runs.
+func (c *Ctx) patternWitnessRule(rule string) {
+	r := c.R
+	r.Rule(rule, "line patterns (constants): reGoBuildGen accepts go:generate lines and every spelling of a build constraint that requires the convergen tag (//go:build convergen, // +build convergen, convergen && X, convergen,X) and rejects other constraints and prose; reConvergen accepts `// :convergen` (with or without spaces) and rejects `:convergence` and a marker mentioned inside a sentence; reNotation accepts `// :name args` with groups (name, args)")
+	type w struct {
+		line string
+		want bool
+	}
+	table := map[string][]w{
+		"parser.reGoBuildGen": {
+			{"//go:build convergen", true}, {"// +build convergen", true}, {"//go:generate go run github.com/reedom/convergen@v0.7.0", true},
+			{"//go:build convergen && !purego", true}, {"// +build convergen,!purego", true}, {"//go:generate convergen", true},
+			{"//go:build linux", false}, {"// +build linux", false}, {"// an ordinary comment", false}, {"// :convergen", false},
+			{"// see //go:build convergen for details", false}, {"//go:generated by hand", false},
+		},
+		"parser.reConvergen": {
+			{"// :convergen", true}, {"//:convergen", true}, {"//   :convergen", true},
+			{"// :convergence", false}, {"// see :convergen", false}, {"// convergen", false}, {"// :conv", false},
+		},
+		"parser.reNotation": {
+			{"// :skip Name", true}, {"//:map A B", true}, {"// :getter", true}, {"// plain text", false}, {"// text :skip Name", false},
+		},
+	}
+	for _, g := range sortedKeys(table) {
+		pat, ok := c.globalRegexpPattern(g)
+		if !ok {
+			r.Undecided(rule, g, "not a package-level regexp.MustCompile(<constant>)")
+			continue
+		}
+		re, err := regexp.Compile(pat)
+		if err != nil {
+			r.Check(rule, g+":compiles", "-", false, "pattern "+strconv.Quote(pat)+" does not compile: "+err.Error())
+			continue
+		}
+		for _, wt := range table[g] {
+			got := re.MatchString(wt.line)
+			verb := "reject"
+			if wt.want {
+				verb = "accept"
+			}
+			r.Check(rule, g+":"+verb+":"+wt.line, "-", got == wt.want, "pattern "+strconv.Quote(pat)+" must "+verb+" the line "+strconv.Quote(wt.line))
+		}
+	}
+}
+
+// lineSubjectRule: comment patterns are applied to one comment line at a time.
+func (c *Ctx) lineSubjectRule(rule string) {
+	r := c.R
+	r.Rule(rule, "comment-line predicates: every MatchString / FindStringSubmatch in the comment helpers (util.MatchComments, util.ExtractMatchComments) and of parser.reNotation is applied to the Text of one ast.Comment of the examined group (the patterns are anchored to the line start: a joined text would only ever see the first line)")
+	n := 0
+	for _, s := range c.Calls(func(n string) bool {
+		return n == "(*regexp.Regexp).MatchString" || n == "(*regexp.Regexp).FindStringSubmatch" || n == "(*regexp.Regexp).FindString" || n == "(*regexp.Regexp).FindStringIndex"
+	}) {
+		recv := c.O.Of(s.Args()[0])
+		lineRe := recv.Is("global", "parser.reNotation") || recv.Is("global", "parser.reConvergen") || recv.Is("global", "parser.reGoBuildGen")
+		if p := pkgOf(s.Fn); recv.Kind == "param" && p != nil && p.Path() == mod+"/pkg/util" {
+			lineRe = true
+		}
+		if !lineRe {
+			continue
+		}
+		n++
+		subj := c.O.Of(s.Args()[1])
+		ok := subj.IsField("ast.Comment.Text") && (subj.Args[0].Kind == "index" || subj.Args[0].Kind == "param" || subj.Args[0].Kind == "extract" || subj.Args[0].Kind == "next")
+		r.Check(rule, sprintf("%s:%s", FnKey(s.Fn), shortCallee(s.Callee)), c.Pos(s.Pos()), ok, "a line pattern is applied to "+subj.String()+" instead of the text of a single comment line")
+	}
+	r.Floor(rule, "applications of comment-line patterns", n, 3)
 }
